@@ -594,14 +594,11 @@ func (b *builder) etherAppendExt(a, exp jmap, want string) bool {
 	}
 	if panicked != "" {
 		key := "C03:AppendPayload.ether.panic"
-		if jbool(exp, "mechpanic") {
+		if jbool(exp, "capover") { // the defect fixed by ca70b93: destination sliced by cap(payload)
 			key = "C03:KF_EtherAppendCap"
 		}
 		r.add("prop", key, "Ether.AppendPayload panicked for a payload of %d bytes (slice capacity %d) and a buffer of capacity %d: %s", n, n+slack, b.buf.cap, panicked)
 		return false
-	}
-	if jbool(exp, "mechpanic") {
-		r.add("mech", "build.EtherAppendCap", "model predicts a slice-bounds panic for payload capacity %d, none happened", n+slack)
 	}
 	if want == "ErrPayloadTooBig" {
 		if err != packet.ErrPayloadTooBig {
